@@ -42,9 +42,13 @@ impl SchedulerThread {
     pub fn new() -> SchedulerThread {
         // All the thread does is run jobs from its channel
         let (jobs_in, jobs_out): (Sender<Box<dyn FnMut() -> ()+Send>>, Receiver<Box<dyn FnMut() -> ()+Send>>) = channel();
+        #[cfg(feature = "verif-hooks")]
+        crate::verif::pool_thread_spawning();
         let thread = thread::Builder::new()
             .name("desync jobs thread".to_string())
             .spawn(move || {
+                #[cfg(feature = "verif-hooks")]
+                let _verif_alive = crate::verif::PoolThreadGuard::new();
                 while let Ok(mut job) = jobs_out.recv() {
                     (*job)();
                 }
